@@ -408,7 +408,8 @@ class Compiler:
             labels.sort(key=lambda item: (item[1], item[0]))
             for name, value in labels:
                 if isinstance(value, int):
-                    result += oct(value)[2:].rjust(6, "0") + " " + name + "\n"
+                    # oct(-5) is '-0o5': take the sign out before cutting the prefix off
+                    result += ("-" if value < 0 else "") + oct(abs(value))[2:].rjust(6, "0") + " " + name + "\n"
 
             result += "\n"
 
